@@ -234,6 +234,11 @@ FamC09(dummy) ==
          P \in {[Build(Kind(TRUE, t, sp), "res", pr, StepC09, NoName, InC09, IF t THEN "and_then" ELSE "then") EXCEPT !.hform = hf] :
                   t \in BOOLEAN, sp \in BOOLEAN, hf \in {"closure", "call"},
                   pr \in IF Tier = "quick" THEN {<<1>>, <<2>>, <<1, 1>>, <<2, 1>>, <<1, 2>>, <<2, 2>>, <<2, 1, 2>>} ELSE Profiles(2, 3) \cup {<<1, 1, 1>>, <<2, 1, 2>>, <<2, 2, 2>>, <<1, 3, 3>>}}}
+  \* the second branch's initial expression awaits something itself (`f(g().await)`): the construction of the step's futures is
+  \* suspended inside the macro's future; with tasks the first branch is spawned already and makes progress meanwhile
+  \cup UNION {{Run(P, <<>>, G) : G \in {{IidOf(1) + 9}, {IidOf(1) + 9} \cup ItemIds(P, {"and_then"})}} :
+              P \in {LET In(b) == IF b = 1 THEN "await" ELSE "expr" IN Build(Kind(TRUE, t, sp), "res", pr, StepC09, NoName, In, "none") :
+                       t \in BOOLEAN, sp \in BOOLEAN, pr \in {<<1, 1>>, <<2, 1>>, <<1, 2, 1>>}}}
   \* no handler; branches that are only an initial future (depth 0), alone and next to others
   \cup UNION {{Run(P, <<>>, G) : G \in {{}, InitIds(P)}} :
               P \in {Build(Kind(TRUE, t, sp), "res", pr, StepC09, NoName, ExprInit, "none") : t \in BOOLEAN, sp \in BOOLEAN,
@@ -499,6 +504,7 @@ Pick ==
 ArrivedSet(st) ==
   {IdAt(st, b) : b \in {c \in Active(st.prog, st.k) \ st.ended : st.pc[c].ph \in {"w", "x"} /\ st.arrived[c] /\ c # st.pb}}
   \cup (IF st.ph = "hawait" /\ st.hparked THEN {st.prog.hid} ELSE {})
+  \cup (IF st.ph = "step" /\ st.consq # <<>> /\ st.cparked THEN {Head(st.consq).id} ELSE {})
 
 QuiescentNow == BranchEvents(s) = {} /\ StepEvents(s) = {} /\ HandlerEvents(s) = {}
 
